@@ -594,7 +594,7 @@ func (e *dbEnv) observeState(o *stepObs) {
 }
 
 // exec runs one step on the live database.
-const dbCallTimeout = 4 * time.Second // database calls take milliseconds; a call that is still out after this is deadlocked
+const dbCallTimeout = 12 * time.Second // database calls take milliseconds (an fsync on a busy disk can take seconds); a call still out after this is deadlocked
 
 var hungHistories int // histories of this run that ended in a deadlocked handle
 
